@@ -30,6 +30,16 @@ func GenerateIntegrations(intgenParams *cmdutils.CmdContextParamIntgen,
 	// The "project" app that specifies the required view of the integration
 	app := model.GetApps()[intgenParams.Project]
 	of := cmdutils.MakeFormatParser(intgenParams.Output)
+	// The views label applications, calls and the diagram with format strings that the model supplies (appfmt, epfmt
+	// and title of the project application). FormatParser panics on a string it cannot parse when it is used, which
+	// is in the middle of the generation, so they are tried here and a malformed one is the command's error.
+	for _, format := range []string{
+		getAppfmtAttrOrDefault(app), getEpfmtAttr(app), getTitleFormat(app, intgenParams.Title),
+	} {
+		if err := cmdutils.MakeFormatParser(format).Check(); err != nil {
+			return nil, err
+		}
+	}
 	// Iterate over each endpoint within the selected project, in name order: when the output name does not
 	// contain %(epname) all views share one entry of the result, and the one that is kept must not depend on
 	// the iteration order of the map.
